@@ -25,7 +25,9 @@ RULE = (
     "(sourced via a second 'start_receiving_env file' in the same phase subshell, resp. as the ebuild sourced by the "
     "depend phase); afterwards 'alive' must be answered inside the phase loop, the phase must finish with "
     "'phases succeeded' and 'alive' must be answered by the main loop. A class is (transport, quoting branch of the "
-    "value, observed outcome)."
+    "value, observed outcome). Histories: one mapping object (ebd.py hands one self.env to every phase) is transferred "
+    "2-3 times over every sequence of {inline, file}; after each transfer values and export attributes are read back as "
+    "above and the caller's mapping must be unchanged."
 )
 ASSUMPTIONS = [
     "the daemon is spawned exactly as EbuildProcessor.__init__ does (its environment holds only BASHRC, BASH_ENV, PATH and the two fd numbers, so bash runs in the POSIX locale); the Python side runs with its default UTF-8 text encoding (PEP 538/540 coercion), as under ./vcheck",
@@ -38,7 +40,7 @@ ASSUMPTIONS = [
 BOUNDS = {
     "quick": "157 values of length <=2 + 300 length-3 values at a fixed stride = 457 values x {scalar, list} x {inline, file}, "
     "and the 157 length<=2 values x {scalar, list} via gen_metadata; export flag alternates by index",
-    "thorough": "all 1885 values of length <=3 x {scalar, list} x {inline, file, gen_metadata} x both export-flag parities",
+    "thorough": "all 1885 values of length <=3 x {scalar, list} x {inline, file, gen_metadata} x both export-flag parities; same 12 histories x 3 variable sets",
 }
 
 CHARS = ["a", " ", "'", '"', "\\", "$", "`", "\n", "\t", "é", "n", "!"]
@@ -103,6 +105,7 @@ def tasks(tier):
             for parity in parities:
                 for lo in range(0, hi_all, BATCH):
                     out.append((tier, transport, kind, parity, lo, min(lo + BATCH, hi_all)))
+    out += [(tier, "history", i) for i in range(len(histories()))]
     return out
 
 
@@ -331,11 +334,7 @@ def _parse_probe(data, names):
     return res
 
 
-def run_env(ctx, transport, vars_, timeout=None):
-    """Send one environment to the real daemon and read it back.
-    Returns (env_failure or None, {var index: message}, outcome tag)."""
-    ebp = ctx.daemon()
-    assert not any(v[0] in ebp._readonly_vars for v in vars_), "alphabet name collides with a readonly variable"
+def build_env(vars_):
     env = {}
     nonexp = []
     for name, kind, val, exported in vars_:
@@ -344,6 +343,17 @@ def run_env(ctx, transport, vars_, timeout=None):
             nonexp.append(name)
     if nonexp:
         env["PKGCORE_NONEXPORTED_VARS"] = " ".join(nonexp)
+    return env
+
+
+def run_env(ctx, transport, vars_, timeout=None, env=None):
+    """Send one environment to the real daemon and read it back.
+    Returns (env_failure or None, {var index: message}, outcome tag).
+    env: the caller's own mapping object (histories hand the same object over several times)."""
+    ebp = ctx.daemon()
+    assert not any(v[0] in ebp._readonly_vars for v in vars_), "alphabet name collides with a readonly variable"
+    if env is None:
+        env = build_env(vars_)
     out = os.path.join(ctx.dir, "out")
     probe = os.path.join(ctx.dir, "probe.ebuild")
     if os.path.exists(out):
@@ -493,7 +503,71 @@ def check_group(ctx, transport, vars_, classes, stats):
     return left + right
 
 
+# ------------------------------------------------------------------ histories: the same mapping object sent repeatedly
+
+HIST_VARSETS = [
+    [["HA0", "scalar", "plain", True], ["_hb1", "scalar", "x y", False], ["Hc1x2", "list", ["a", "b c"], False], ["HA3", "list", ["q"], True]],
+    [["HA0", "scalar", "a'b", False], ["_hb1", "scalar", "", False], ["Hc1x2", "scalar", "n", True]],
+    [["HA0", "scalar", "only", False]],
+]
+
+
+def histories():
+    return [list(h) for n in (2, 3) for h in itertools.product(("inline", "file"), repeat=n)]
+
+
+def run_history(ctx, hist, vars_):
+    """ebd.py hands one and the same env mapping to run_phase for every phase: transfer the same object along hist;
+    after every transfer the daemon must show the reference values and export attributes and the caller's mapping
+    must be what it was. -> list of messages"""
+    env = build_env(vars_)
+    reference = {k: (list(v) if isinstance(v, list) else v) for k, v in env.items()}
+    msgs = []
+    for step, transport in enumerate(hist):
+        failure, per, tag = run_env(ctx, transport, vars_, env=env)
+        if failure is not None and failure.startswith("channel stuck (no answer within"):
+            failure, per, tag = run_env(ctx, transport, vars_, env=env)
+        for i in sorted(per):
+            msgs.append(f"transfer {step + 1} ({transport}) of the same mapping: {per[i]}")
+        if failure:
+            msgs.append(f"transfer {step + 1} ({transport}) of the same mapping: {failure}")
+        if env != reference:
+            gone = sorted(set(reference) - set(env))
+            msgs.append(f"transfer {step + 1} ({transport}) changed the caller's mapping: missing {gone}, now {sorted(env)}")
+        if failure:
+            break  # the channel is gone; later transfers would only repeat that
+    return msgs
+
+
+def work_history(task):
+    tier, _, idx = task
+    hist = histories()[idx]
+    classes = {}
+    viol = []
+    ctx = Ctx()
+    try:
+        for vars_ in HIST_VARSETS:
+            msgs = run_history(ctx, hist, vars_)
+            k = f"history:len{len(hist)}:{'ok' if not msgs else 'differs'}"
+            classes[k] = classes.get(k, 0) + 1
+            if msgs:
+                viol.append({"transport": "history", "history": hist, "vars": vars_, "msg": "; ".join(msgs)[:500]})
+        spawns = ctx.spawns
+    finally:
+        ctx.close()
+    return {
+        "evals": len(HIST_VARSETS),
+        "classes": classes,
+        "viol": viol,
+        "keep_all_viol": True,
+        "samples": [{"history": hist, "vars": HIST_VARSETS[0]}],
+        "counters": {"environments_sent": len(hist) * len(HIST_VARSETS), "daemon_spawns": spawns, "histories": len(HIST_VARSETS)},
+    }
+
+
 def work(task):
+    if task[1] == "history":
+        return work_history(task)
     tier, transport, kind, parity, lo, hi = task
     u = universe(tier)
     classes = {}
@@ -522,6 +596,12 @@ def work(task):
 
 
 def replay(case):
+    if case.get("history"):
+        ctx = Ctx()
+        try:
+            return run_history(ctx, case["history"], [list(v) for v in case["vars"]])
+        finally:
+            ctx.close()
     ctx = Ctx()
     try:
         vars_ = [tuple(v) for v in case["vars"]]
